@@ -31,6 +31,7 @@ class Body:
         self.reachable = j.get("reachable", False)
         self.inputs = [norm_ty(t) for t in j.get("inputs", [])]
         self.output = norm_ty(j["output"]) if "output" in j else None
+        self.generics = list(j.get("generics", []))
 
     def ident(self):
         """Refactoring-stable identity: trait impls by (trait, args, self, name); inherent
